@@ -55,6 +55,7 @@ M = [
 def sh(cmd, cwd=None, timeout=3600):
     e = dict(os.environ)
     e["CARGO_NET_OFFLINE"] = "true"
+    e["VERIF_EVIDENCE_DIR"] = os.path.join(ROOT, "out", "evidence-scratch")
     p = subprocess.run(cmd, shell=True, cwd=cwd, stdout=subprocess.PIPE, stderr=subprocess.STDOUT, text=True, timeout=timeout, env=e)
     return p.returncode, p.stdout
 
